@@ -541,11 +541,13 @@ class TypeTransformer:
             except (TypeError, ValueError, re.error):
                 continue
 
-        if '+' in str(data):
+        # a trailing UTC offset, positive or negative: +08:00 / -0800 / " -08:00"
+        offset = re.search(r'( ?)[+-]\d{2}:?\d{2}(:\d{2}(\.\d+)?)?$', str(data))
+        if offset:
             for f in formats:
                 try:
                     # val = t.strptime(data, f + ' %z')
-                    val = t.strptime(data, f + (' %z' if ' +' in str(data) else '%z'))
+                    val = t.strptime(data, f + (' %z' if offset.group(1) else '%z'))
                     if is_utc:
                         val = val.replace(tzinfo=timezone.utc)
                     return val
